@@ -30,6 +30,9 @@ ROLE = ('constructor', 'method')
 FULL_MENU = [
     ['skip', None], ['foreign', None], ['constructor', None], ['method', None], ['value', '7'],
     ['attributes', 'my.key=val'], ['attributes', 'my.key=val other.key=v2'], ['attributes', 'my.flag'],
+    # values that themselves contain '=': the value is everything after the FIRST '=' ("key=value" pairs)
+    ['attributes', 'org.foo.filter=state=open'], ['attributes', 'my.expr=a=b=c other.key=v2'],
+    ['attributes', 'my.pad=dGVzdA=='], ['attributes', 'my.eq=x='], ['attributes', 'my.flag my.key=a=b'],
     ['rename-to', 'foo_func'], ['rename-to', 'foo_other'], ['rename-to', 'foo_obj_invoke'],
     ['rename-to', 'nosuch_fn'], ['rename-to', 'foo_fun'], ['rename-to', 'func'], ['rename-to', 'FOO_ENUM_A'],
     ['transfer', 'full'], ['transfer', 'none'], ['transfer', 'floating'], ['type', 'utf8'],
